@@ -108,8 +108,14 @@ def scaled(c, t, k):
     c2["INITIAL_SEAWEED"] = c["INITIAL_SEAWEED"] * k
     c2["INITIAL_BUILT_SEAWEED_AREA"] = c["INITIAL_BUILT_SEAWEED_AREA"] * k
     t2["built_area"] = np.array(t["built_area"]) * k
-    for key in ("each_month_meat_slaughtered", "methane_scp", "cellulosic_sugar", "greenhouse_crops", "feed", "biofuel"):
+    for key in ("methane_scp", "cellulosic_sugar", "feed", "biofuel"):
         t2[key] = t[key] * k
+    for key in ("each_month_meat_slaughtered", "greenhouse_crops"):
+        # (the copy of a series that was read month by month in an earlier solve gets new numbers: what it returns for a month is
+        # what it holds now)
+        t2[key].kcals = np.asarray(t2[key].kcals, dtype=float) * k
+        t2[key].fat = np.asarray(t2[key].fat, dtype=float) * k
+        t2[key].protein = np.asarray(t2[key].protein, dtype=float) * k
     t2["outdoor_crops"].production = t["outdoor_crops"].production * k
     t2["fish"].to_humans = t["fish"].to_humans * k
     t2["milk_kcals"] = np.array(t["milk_kcals"]) * k
